@@ -450,6 +450,7 @@ func maybeRecord(r *rand.Rand, o Opts) *gtab.GposValueRecord {
 }
 
 func gpos11(r *rand.Rand, B int, o Opts) gtab.Subtable {
+	o = vrStyled(r, o)
 	n := count(r, B, 2, 1, o)
 	if o.DSL && r.IntN(10) == 0 {
 		n = 0 // "[] -> x+1" is expressible
@@ -460,6 +461,7 @@ func gpos11(r *rand.Rand, B int, o Opts) gtab.Subtable {
 // Binary format: one value format per subtable, so either all records are nil
 // or none is.  DSL: any mixture of nil and non-zero records.
 func gpos12(r *rand.Rand, B int, o Opts) gtab.Subtable {
+	o = vrStyled(r, o)
 	cov := CoverageN(r, count(r, B, 2+vrMax(o), 1, o), o)
 	adj := make([]*gtab.GposValueRecord, len(cov))
 	allNil := r.IntN(8) == 0
@@ -495,6 +497,7 @@ func pairAdjust(r *rand.Rand, o Opts, nilFirst, nilSecond bool) *gtab.PairAdjust
 
 // DSL: at least one pair.
 func gpos21(r *rand.Rand, B int, o Opts) gtab.Subtable {
+	o = vrStyled(r, o)
 	nf, ns := r.IntN(6) == 0, r.IntN(2) == 0
 	nFirst := count(r, B, 6+5*(2+2*vrMax(o)), 1, o)
 	firsts := GIDs(r, nFirst, o.maxGID())
@@ -513,6 +516,7 @@ func gpos21(r *rand.Rand, B int, o Opts) gtab.Subtable {
 
 // DSL: Adjust has NumClasses(Class1) rows of NumClasses(Class2) entries.
 func gpos22(r *rand.Rand, B int, o Opts) gtab.Subtable {
+	o = vrStyled(r, o)
 	nf, ns := r.IntN(6) == 0, r.IntN(2) == 0
 	c1 := numClassesFor(r, B)
 	c2 := numClassesFor(r, B)
